@@ -233,4 +233,39 @@ pub fn run(ctx: &Ctx) {
     let n = ctx.tier.pick(120_000, 4_000_000);
     ctx.explore("programs", RULE, n, || strategy(24), oracle);
     ctx.replay_known("programs", |c: &Case| e1::without_exclusions(|| oracle(c)));
+    // Library-built circuits with non-primitive tables (Merkle-mode permutation rows, conditional
+    // `mmcs_index_sum` reads): the bus entries of those tables are not decoded here; instead the
+    // honest execution is proven and verified, which fails exactly when the WitnessChecks bus of
+    // the honest traces does not balance (creator multiplicity != number of reads). Half of the
+    // cases steer the permutation table to be exactly full (no padding row).
+    let n = ctx.tier.pick(300, 20_000);
+    ctx.explore("npo-circuits", RULE_NPO, n, crate::checks::c08::prove_case_strategy, |c| npo_oracle(c, false));
+    ctx.explore("npo-circuits-full-table", RULE_NPO, n, crate::checks::c08::prove_case_strategy, |c| npo_oracle(c, true));
+}
+
+pub const RULE_NPO: &str = "honest MMCS opening circuits (arity-2 degree-4 Poseidon2 configurations, base and extension \
+leaves, hiding on/off, caps, mixed heights; optionally with the leaf widths steered so that the permutation table is \
+exactly full) built by verify_batch_circuit*, executed, proven with the Poseidon2 and recompose tables registered and \
+verified natively. Oracle: the WitnessChecks bus of the honest traces balances, i.e. the proof is not rejected with a \
+lookup error (other failures are C10's subject and pass here). Non-trivial = as for C10's mmcs-circuits";
+
+fn npo_oracle(c: &crate::checks::c08::Case, full: bool) -> Report {
+    let mut r = if full {
+        crate::checks::c08::oracle_prove_honest_full(c)
+    } else {
+        crate::checks::c08::oracle_prove_honest(c)
+    };
+    if let crate::fw::Verdict::Fail { sig, msg } = &r.verdict {
+        let lookup = msg.contains("Lookup") || msg.contains("lookup") || msg.contains("multiplicity");
+        if lookup {
+            r.verdict = crate::fw::Verdict::Fail {
+                sig: sig.replacen("C10/mmcs-circuit", "C09/npo-circuit-bus-unbalanced", 1),
+                msg: msg.clone(),
+            };
+        } else {
+            r.verdict = crate::fw::Verdict::Pass;
+            r.classes.push("outcome:failed-for-another-reason(C10's subject)".into());
+        }
+    }
+    r
 }
